@@ -36,7 +36,7 @@ class Obj:
         self.a = a
         self.b = b
 
-    def m(self, k):
+    def m(self, k=0):
         return self.a + k
 
     def __repr__(self):
@@ -67,6 +67,18 @@ class WeirdEq:
 
     def __repr__(self):
         return "WeirdEq()"
+
+
+class WeirdCmp:
+    """Ordering comparisons give an object without a truth value (an element-wise mask)."""
+
+    def __lt__(self, other):
+        return WeirdBool()
+
+    __gt__ = __le__ = __ge__ = __lt__
+
+    def __repr__(self):
+        return "WeirdCmp()"
 
 
 class WeirdBool:
@@ -408,6 +420,8 @@ def special_value(v):
         return v
     if v == "WEIRDBOOL":
         return WeirdBool()
+    if v == "WEIRDCMP":
+        return WeirdCmp()
     if v == "STRICTEQ":
         return StrictEq()
     if v == "WEIRDEQ":
